@@ -50,7 +50,7 @@ CHECKS = {
         design="6 C07"),
     "C06": dict(
         level="model_checking",
-        technique="LadimTrace: output files decoded with netCDF4 are validated by TLC against the history of state snapshots recorded when output.update() was called; OutFile model-checked (MC_OutFile); dense layout on the composed model (MC_Ladim_dense: DenseAddressing; control configuration with compaction after every step refuted)",
+        technique="LadimTrace: output files decoded with netCDF4 are validated by TLC against the history of state snapshots recorded when output.update() was called; OutFile model-checked (MC_OutFile); dense layout on the composed model (MC_Ladim_dense: DenseAddressing in the uninterrupted and the restarted run; the pinned addressing by list position refuted by a warm start and by compaction after every step); restarted runs that write the dense layout",
         text="For every recorded run TLC requires: records retrievable by the cumulative particle_count rule (counts sum to the instance dimension), record k = the living particles of the snapshot at the k-th due output call with exactly the state's values (pid, X, Y, Z, age, farm), time coordinate = model time with the stated reference, particle variables at index pid for every particle released up to the file's last record, dense layout decoded at [time, pid].",
         note="Two thirds of the scenarios are directed (2-5 scripted deaths/freezes, particle variables). Values compared exactly (f8/i4 output).",
         design="6 C06"),
@@ -116,7 +116,7 @@ CHECKS = {
         design="6 C10"),
     "C08": dict(
         level="model_checking",
-        technique="MC_Ladim RestartEq (warm start from every record of every small scenario; control configuration restoring the identifier counter from the highest pid refuted by TLC); LadimTrace with a warm-start catch-up cycle whose specification state is initialised from the uninterrupted run's own recorded history; PairTrace restart relation; warm output schedule model-checked (MC_OutFile)",
+        technique="MC_Ladim RestartEq (warm start from every record of every small scenario; control configuration restoring the identifier counter from the highest pid refuted by TLC; MC_Ladim_dense: a restarted run that writes the dense layout addresses columns by identifier, the pinned addressing by list position refuted); LadimTrace with a warm-start catch-up cycle whose specification state is initialised from the uninterrupted run's own recorded history; PairTrace restart relation; warm output schedule model-checked (MC_OutFile)",
         text="For every uninterrupted split run a warm-started run from every completed output file is executed. TLC validates the restarted run's whole trace against the composed specification started from the uninterrupted run's recorded state at the restart record (catch-up step without output, releases at the start time skipped, identifiers continuing, file numbers continuing) and decides the relation: every record written after the restart and before the (step-aligned) stop time equals the uninterrupted run's record at that time - particle sets, identifiers, positions, ages (bit-for-bit digests) - and the particle variables agree.",
         note="Forward time, diffusion off. Output without particle variables falls back to max(pid)+1 for the identifier counter (documented limitation of the repaired code, not exercised).",
         design="6 C08"),
